@@ -132,6 +132,9 @@ func enumerate(e *env, q query.Query, o optsT) (ranks []int, bad string, err err
 	defer s.Close()
 	for i := 0; i <= len(e.live)+1; i++ {
 		id, err := callNext(s, sctx)
+		if pe, ok := err.(*panicErr); ok {
+			return ranks, "panic: " + pe.msg, nil
+		}
 		if err != nil {
 			return nil, "", err
 		}
@@ -176,6 +179,10 @@ func genProgram(r *rand.Rand, e *env, q query.Query, o optsT, maxCalls int, matc
 		}
 		if !adv {
 			id, err := callNext(s, sctx)
+			if pe, ok := err.(*panicErr); ok {
+				prog = append(prog, callT{Op: "next", T: -1, R: -2})
+				return prog, "panic: " + pe.msg, nil
+			}
 			if err != nil {
 				return prog, "", err
 			}
@@ -460,9 +467,6 @@ func (ct *corpusT) runQuery(r *rand.Rand, eng string, o optsT, q *qs.Node, nprog
 	}
 	q2 := qs.HasMustShouldMin(q)
 	firstAdvP := 0.45
-	if q2 {
-		firstAdvP = 0.12
-	}
 	for k := 0; k < nprog; k++ {
 		prog, bad, err := genProgram(r, e, bq, o, maxCalls, enum, firstAdvP)
 		if err != nil {
@@ -497,6 +501,8 @@ func run(c *core.Ctx) error {
 	c.Assume("the nested-conjunction searcher and the nested collector are the subject of C20, the k-NN and geo searchers are outside the query family of C02/C08")
 
 	models := []modelCfg{
+		{"MCSearchers_c08_q_zero.cfg", 1, 8 * time.Minute},
+		{"MCSearchers_c08_q_q2.cfg", 1, 8 * time.Minute},
 		{"MCSearchers_c08_q_tfr.cfg", 2, 8 * time.Minute},
 		{"MCSearchers_c08_q_tfr_bm.cfg", 2, 8 * time.Minute},
 		{"MCSearchers_c08_q_core_none.cfg", 3, 8 * time.Minute},
@@ -527,8 +533,9 @@ func run(c *core.Ctx) error {
 	}
 	defer wg.Wait()
 
-	// the two configurations TLC is expected to refute (open findings): their
-	// counterexamples are executed on the real code
+	// the two configurations that model the code AS FOUND (before the repairs
+	// e665ba9 and b5b6d7b): TLC is expected to refute them, and their
+	// counterexamples are executed on the real code as regression detectors
 	var fwg sync.WaitGroup
 	var ferr [2]error
 	fwg.Add(2)
@@ -1065,10 +1072,11 @@ func shapeA(v any) string {
 
 // ---- the model's counterexamples for the open findings, on the real code
 
-// modelFindingEmpty: configuration c08_zero (a snapshot without segments).
-// TLC is EXPECTED to refute NoPanic: TfrAdv indexes offsets[-1].
+// modelFindingEmpty: configuration c08_asfound_zero (a snapshot without
+// segments, FixEmptySnapshot = FALSE). TLC is EXPECTED to refute NoPanic:
+// TfrAdv as found indexed offsets[-1].
 func modelFindingEmpty(c *core.Ctx) error {
-	res, err := c.RunTLC("exhaustive(expected-counterexample)", "MCSearchers", "MCSearchers_c08_zero.cfg", core.Workers(1), core.Timeout(8*time.Minute))
+	res, err := c.RunTLC("exhaustive(expected-counterexample)", "MCSearchers", "MCSearchers_c08_asfound_zero.cfg", core.Workers(1), core.Timeout(8*time.Minute))
 	if err != nil {
 		return err
 	}
@@ -1077,11 +1085,11 @@ func modelFindingEmpty(c *core.Ctx) error {
 			c.Extra("empty_snapshot_model", "the model no longer refutes NoPanic for a snapshot without segments")
 			return nil
 		}
-		return fmt.Errorf("c08_zero configuration failed: violated=%q %s", res.Violated, res.ErrorText)
+		return fmt.Errorf("c08_asfound_zero configuration failed: violated=%q %s", res.Violated, res.ErrorText)
 	}
 	st, ok := qs.FirstBadState(res)
 	if !ok {
-		return fmt.Errorf("c08_zero counterexample not parsed")
+		return fmt.Errorf("c08_asfound_zero counterexample not parsed")
 	}
 	prog := qs.ProgOf(st["prog"])
 	// the real input: index one document, delete it (the only segment is
@@ -1125,14 +1133,15 @@ func modelFindingEmpty(c *core.Ctx) error {
 			return perr
 		}
 	}
-	c.Extra("empty_snapshot_model", "model counterexample did not reproduce on the real code (fixed?)")
+	c.Extra("empty_snapshot_asfound", "the as-found model's counterexample (Advance on a snapshot without segments panics) does not reproduce: repaired in the code")
 	return nil
 }
 
-// modelFindingQ2: configuration c08_q2 (boolean must + should(min>=1), Advance
-// allowed as the first call). TLC is EXPECTED to refute ResultOK.
+// modelFindingQ2: configuration c08_asfound_q2 (boolean must + should(min>=1),
+// Advance as the first call, FixBoolAdvance = FALSE). TLC is EXPECTED to
+// refute ResultOK.
 func modelFindingQ2(c *core.Ctx) error {
-	res, err := c.RunTLC("exhaustive(expected-counterexample)", "MCSearchers", "MCSearchers_c08_q2.cfg", core.Workers(2), core.Timeout(8*time.Minute))
+	res, err := c.RunTLC("exhaustive(expected-counterexample)", "MCSearchers", "MCSearchers_c08_asfound_q2.cfg", core.Workers(1), core.Timeout(8*time.Minute))
 	if err != nil {
 		return err
 	}
@@ -1141,11 +1150,11 @@ func modelFindingQ2(c *core.Ctx) error {
 			c.Extra("q2_model", "the model no longer refutes ResultOK for Advance-first on boolean must+should(min)")
 			return nil
 		}
-		return fmt.Errorf("c08_q2 configuration failed: violated=%q %s", res.Violated, res.ErrorText)
+		return fmt.Errorf("c08_asfound_q2 configuration failed: violated=%q %s", res.Violated, res.ErrorText)
 	}
 	st, ok := qs.FirstBadState(res)
 	if !ok {
-		return fmt.Errorf("c08_q2 counterexample not parsed")
+		return fmt.Errorf("c08_asfound_q2 counterexample not parsed")
 	}
 	post := qs.PostOf(st["post"])
 	prog := qs.ProgOf(st["prog"])
@@ -1174,7 +1183,7 @@ func modelFindingQ2(c *core.Ctx) error {
 		}
 	}
 	if reproduced == 0 {
-		c.Extra("q2_model", "model counterexample did not reproduce on the real code (fixed?)")
+		c.Extra("q2_asfound", "the as-found model's counterexample (boolean Advance as first call skips a match) does not reproduce: repaired in the code")
 	}
 	return nil
 }
